@@ -141,6 +141,39 @@ func c11Shapes() []c11Shape {
 			[]c11Listener{{"C0", 0, "B0", false}},
 			map[string][]int{"": {0}, "A": {0}}, []string{"A", "B0", "B0"}, 0})
 	}
+	for _, depth := range []int{1, 2} { // the sequence shape with C0 and B0 inside an embedded sub-process (nested once or twice)
+		p := &Prog{}
+		p.Node("start", "start")
+		p.Node("task", "A")
+		sn := p.Node("sub", "S")
+		sn.Sub = &Prog{nflow: 300}
+		inner := sn.Sub
+		if depth == 2 {
+			inner.Node("start", "s1")
+			s2 := inner.Node("sub", "S2")
+			s2.Sub = &Prog{nflow: 400}
+			inner.Node("end", "e1")
+			inner.Flow("s1", "S2", "")
+			inner.Flow("S2", "e1", "")
+			inner = s2.Sub
+		}
+		inner.Node("start", "ss")
+		c11Catch(inner, "C0", 0, false)
+		inner.Node("task", "B0")
+		inner.Node("end", "se")
+		inner.Flow("ss", "C0", "")
+		inner.Flow("C0", "B0", "")
+		inner.Flow("B0", "se", "")
+		c11Catch(p, "C1", 1, true)
+		p.Node("task", "B1")
+		p.Node("end", "end")
+		for _, f := range [][2]string{{"start", "A"}, {"A", "S"}, {"S", "C1"}, {"C1", "B1"}, {"B1", "end"}} {
+			p.Flow(f[0], f[1], "")
+		}
+		out = append(out, c11Shape{fmt.Sprintf("in-sub-process-%d", depth), p, extra, nil,
+			[]c11Listener{{"C0", 0, "B0", false}, {"C1", 1, "B1", true}},
+			map[string][]int{"A": {0}, "B0": {1}}, []string{"A", "B0", "B1"}, 0})
+	}
 	return out
 }
 
